@@ -32,6 +32,18 @@ pub fn run(ctx: &mut Ctx) {
                 p
             }
         };
+        // a slice with a large (or tiny) objective: absolute and relative gap criteria then differ by orders of magnitude
+        let mut p = p;
+        if rng.bool(0.25) {
+            let f = 10f64.powf(*rng.choose(&[2.0, 4.0, 6.0, -3.0]));
+            for v in p.q.iter_mut() {
+                *v *= f;
+            }
+            for v in p.P.nzval.iter_mut() {
+                *v *= f;
+            }
+            ctx.bump("instances_with_rescaled_objective");
+        }
         let mut st = gen::random_settings(&mut rng, true);
         let engineered = rng.usize(0, 9);
         match engineered {
